@@ -56,6 +56,9 @@ def gen_cases(chk):
         h = '%02x%02x%02x%02x' % t
         add('t2s', h)
         add('pad', h)
+    # neighbourhood of the constants zeropad tests (0x20) and of byte-carry boundaries: exhaustive over a small alphabet
+    for t in itertools.product([0x00, 0x1f, 0x20, 0x21, 0x41, 0x7f, 0x80, 0xff], repeat=4):
+        add('pad', '%02x%02x%02x%02x' % t)
     for _ in range(300000 if thorough else 4000):
         h = '%08x' % rng.getrandbits(32)
         add('t2s', h)
